@@ -160,7 +160,7 @@ Proof.
   rewrite G1. apply map_ext. intros k. reflexivity.
 Qed.
 
-(* ---- repair windows ---- *)
+(* ---- repair windows of the pinned (pre-repair) body: sbe_repair_packets_pinned ---- *)
 
 Section Window.
 Variables (m : mode) (e : sb_encoder).
@@ -177,10 +177,10 @@ Definition rp_body (s i : N) : outcome packet :=
   obind (payload_id_new (sbe_id e) esi) (fun id => Ok (id, data)))))).
 
 Lemma repair_packets_unfold s n :
-  sbe_repair_packets m e s n =
+  sbe_repair_packets_pinned m e s n =
   obind (add_w m 32 s K') (fun _ => omapM (rp_body s) (rangeN (N.to_nat n))).
 Proof.
-  unfold sbe_repair_packets. fold K.
+  unfold sbe_repair_packets_pinned. fold K.
   rewrite (po_ext _ _ _ _ _ _ _ PO). cbn [obind].
   destruct (add_w m 32 s K') as [se|c] eqn:Ese; cbn [obind]; [|reflexivity].
   rewrite (po_W _ _ _ _ _ _ _ PO), (po_J _ _ _ _ _ _ _ PO), (po_Kp1 _ _ _ _ _ _ _ PO). cbn [obind].
@@ -202,7 +202,7 @@ Proof.
 Qed.
 
 Lemma window_spec s n l :
-  sbe_repair_packets m e s n = Ok l <->
+  sbe_repair_packets_pinned m e s n = Ok l <->
   (exists se, add_w m 32 s K' = Ok se) /\
   Forall2 (fun i p => rp_body s i = Ok p) (rangeN (N.to_nat n)) l.
 Proof.
@@ -212,14 +212,14 @@ Proof.
   - intros [[se Ese] F]. rewrite Ese. cbn [obind]. apply omapM_Forall2. exact F.
 Qed.
 
-Lemma single_spec s p : sbe_repair_packets m e s 1 = Ok [p] <-> rp_body s 0 = Ok p.
+Lemma single_spec s p : sbe_repair_packets_pinned m e s 1 = Ok [p] <-> rp_body s 0 = Ok p.
 Proof.
   rewrite window_spec. change (rangeN (N.to_nat 1)) with [0]. split.
   - intros [_ F]. inversion F; subst. assumption.
   - intros E. split; [eapply rp_body_start; exact E | constructor; [exact E | constructor]].
 Qed.
 
-Lemma window_nth s n l : sbe_repair_packets m e s n = Ok l ->
+Lemma window_nth s n l : sbe_repair_packets_pinned m e s n = Ok l ->
   length l = N.to_nat n /\
   forall i d, i < n -> rp_body s i = Ok (nth (N.to_nat i) l d).
 Proof.
@@ -231,9 +231,9 @@ Proof.
 Qed.
 
 (* a window is the list of the single-packet requests s, s+1, ..., s+n-1 *)
-Lemma window_is_singles s n l : sbe_repair_packets m e s n = Ok l ->
+Lemma window_is_singles s n l : sbe_repair_packets_pinned m e s n = Ok l ->
   length l = N.to_nat n /\
-  forall i d, i < n -> sbe_repair_packets m e (s + i) 1 = Ok [nth (N.to_nat i) l d].
+  forall i d, i < n -> sbe_repair_packets_pinned m e (s + i) 1 = Ok [nth (N.to_nat i) l d].
 Proof.
   intros E. destruct (window_nth s n l E) as [Hlen Hn]. split; [exact Hlen|].
   intros i d Hi. apply single_spec. rewrite <- rp_body_shift. apply Hn. exact Hi.
@@ -241,8 +241,8 @@ Qed.
 
 Lemma singles_make_window s n l d :
   (m = Release \/ (K' + s < 2 ^ 32 /\ K' + s + n <= 2 ^ 32)) -> length l = N.to_nat n ->
-  (forall i, i < n -> sbe_repair_packets m e (s + i) 1 = Ok [nth (N.to_nat i) l d]) ->
-  sbe_repair_packets m e s n = Ok l.
+  (forall i, i < n -> sbe_repair_packets_pinned m e (s + i) 1 = Ok [nth (N.to_nat i) l d]) ->
+  sbe_repair_packets_pinned m e s n = Ok l.
 Proof.
   intros Hm Hlen Hs. apply window_spec. split.
   - destruct Hm as [->|Hb]; [rewrite add_w_release; eauto|].
@@ -267,7 +267,7 @@ Proof.
 Qed.
 
 (* a window that starts at a valid ESI (or just past the last one) never wraps *)
-Lemma window_no_wrap s n l : K + s <= 16777216 -> sbe_repair_packets m e s n = Ok l ->
+Lemma window_no_wrap s n l : K + s <= 16777216 -> sbe_repair_packets_pinned m e s n = Ok l ->
   K + s + n <= 16777216.
 Proof.
   intros Hs E. destruct (window_nth s n l E) as [_ Hn].
@@ -279,7 +279,7 @@ Proof.
   vm_compute in X. discriminate X.
 Qed.
 
-Lemma window_ids s n l : K' + s + n <= 2 ^ 32 -> sbe_repair_packets m e s n = Ok l ->
+Lemma window_ids s n l : K' + s + n <= 2 ^ 32 -> sbe_repair_packets_pinned m e s n = Ok l ->
   map fst l = map (fun i => (sbe_id e, K + s + i)) (rangeN (N.to_nat n)) /\
   (n <> 0 -> K + s + n <= 16777216).
 Proof.
@@ -303,13 +303,13 @@ End Window.
 (* ---- consequences: overlapping windows, distinct ids, producibility, payload determinacy ---- *)
 
 Lemma windows_agree m e s1 n1 l1 s2 n2 l2 i1 i2 d :
-  sbe_repair_packets m e s1 n1 = Ok l1 -> sbe_repair_packets m e s2 n2 = Ok l2 ->
+  sbe_repair_packets_pinned m e s1 n1 = Ok l1 -> sbe_repair_packets_pinned m e s2 n2 = Ok l2 ->
   i1 < n1 -> i2 < n2 -> s1 + i1 = s2 + i2 ->
   nth (N.to_nat i1) l1 d = nth (N.to_nat i2) l2 d.
 Proof.
   intros E1 E2 H1 H2 Hs.
   assert (X : exists Kp, extended_source_block_symbols (lenN (sbe_syms e)) = Ok Kp).
-  { unfold sbe_repair_packets in E1. oinv E1. eauto. }
+  { unfold sbe_repair_packets_pinned in E1. oinv E1. eauto. }
   destruct X as [Kp X]. destruct (params_of_ext _ _ X) as [J [S [H [W [P1 PO]]]]].
   destruct (window_is_singles m e Kp J S H W P1 PO s1 n1 l1 E1) as [_ A1].
   destruct (window_is_singles m e Kp J S H W P1 PO s2 n2 l2 E2) as [_ A2].
@@ -325,7 +325,7 @@ Qed.
 
 Lemma window_ids_distinct m e Kp s n l :
   extended_source_block_symbols (lenN (sbe_syms e)) = Ok Kp -> Kp + s + n <= 2 ^ 32 ->
-  sbe_repair_packets m e s n = Ok l ->
+  sbe_repair_packets_pinned m e s n = Ok l ->
   NoDup (map fst l) /\
   Forall (fun p => fst (fst p) = sbe_id e /\ lenN (sbe_syms e) <= snd (fst p) < 16777216) l.
 Proof.
@@ -383,7 +383,7 @@ Proof.
 Qed.
 
 Lemma window_producible s n : K + s + n <= 16777216 ->
-  exists l, sbe_repair_packets m e s n = Ok l.
+  exists l, sbe_repair_packets_pinned m e s n = Ok l.
 Proof.
   intros Hb. pose proof (po_facts _ _ _ _ _ _ _ PO) as F. destruct F.
   change MAX_SOURCE_SYMBOLS_PER_BLOCK with 56403 in ro_Kmax.
@@ -417,6 +417,145 @@ Proof.
   injection D2 as D2. exact D2.
 Qed.
 
+(* ---- pinned body, statements without the table row as a parameter ---- *)
+
+Lemma window_params m e s n l : sbe_repair_packets_pinned m e s n = Ok l ->
+  exists Kp J S H W P1, params_of (lenN (sbe_syms e)) Kp J S H W P1.
+Proof.
+  intros E. unfold sbe_repair_packets_pinned in E. oinvas E as Kp X.
+  destruct (params_of_ext _ _ X) as [J [S [H [W [P1 PO]]]]]. eauto 10.
+Qed.
+
+(* identifiers of the pinned body, any mode: K + s + i reduced mod 2^32 (and below 2^24) *)
+Lemma pinned_ids_mod m e s n l : sbe_repair_packets_pinned m e s n = Ok l ->
+  forall i d, i < n ->
+    fst (nth (N.to_nat i) l d) = (sbe_id e, (lenN (sbe_syms e) + s + i) mod 2 ^ 32) /\
+    (lenN (sbe_syms e) + s + i) mod 2 ^ 32 < 16777216.
+Proof.
+  intros E i d Hi. destruct (window_params m e s n l E) as [Kp [J [S [H [W [P1 PO]]]]]].
+  destruct (window_nth m e Kp J S H W P1 PO s n l E) as [_ Hn].
+  destruct (rp_body_inv m e Kp J W P1 s i _ (Hn i d Hi)) as [t [I1 [I2 _]]]. auto.
+Qed.
+
+(* ---- the repaired function: the id-space assert, then the pinned body ---- *)
+
+Lemma repair_unfold m e s n :
+  sbe_repair_packets m e s n =
+  if lenN (sbe_syms e) + s + n <=? 16777216 then sbe_repair_packets_pinned m e s n else Panic PAssert.
+Proof.
+  unfold sbe_repair_packets. change ESI_LIMIT with 16777216.
+  destruct (lenN (sbe_syms e) + s + n <=? 16777216); reflexivity.
+Qed.
+
+Lemma repair_ok_iff m e s n l :
+  sbe_repair_packets m e s n = Ok l <->
+  lenN (sbe_syms e) + s + n <= 16777216 /\ sbe_repair_packets_pinned m e s n = Ok l.
+Proof.
+  rewrite repair_unfold. destruct (N.leb_spec (lenN (sbe_syms e) + s + n) 16777216) as [Hle|Hgt].
+  - split; [auto | intros [_ E]; exact E].
+  - split; [discriminate | intros [X _]; lia].
+Qed.
+
+Lemma repair_refused m e s n : 16777216 < lenN (sbe_syms e) + s + n ->
+  sbe_repair_packets m e s n = Panic PAssert.
+Proof.
+  intros Hgt. rewrite repair_unfold.
+  replace (lenN (sbe_syms e) + s + n <=? 16777216) with false by (symmetry; apply N.leb_gt; exact Hgt).
+  reflexivity.
+Qed.
+
+(* inside the id space nothing leaves u32 *)
+Lemma inside_no_wrap K K' J S H W P1 s n : params_of K K' J S H W P1 -> K + s + n <= 16777216 ->
+  K' + s < 2 ^ 32 /\ K' + s + n <= 2 ^ 32.
+Proof.
+  intros PO Hb. pose proof (po_K'_lt _ _ _ _ _ _ _ PO). lia.
+Qed.
+
+Lemma repair_params m e s n l : sbe_repair_packets m e s n = Ok l ->
+  exists Kp J S H W P1, params_of (lenN (sbe_syms e)) Kp J S H W P1.
+Proof. intros E. apply repair_ok_iff in E. destruct E as [_ E]. exact (window_params m e s n l E). Qed.
+
+Lemma c18_window_is_singles m e s n l : sbe_repair_packets m e s n = Ok l ->
+  length l = N.to_nat n /\
+  forall i d, i < n -> sbe_repair_packets m e (s + i) 1 = Ok [nth (N.to_nat i) l d].
+Proof.
+  intros E. apply repair_ok_iff in E. destruct E as [Hb E].
+  destruct (window_params m e s n l E) as [Kp [J [S [H [W [P1 PO]]]]]].
+  destruct (window_is_singles m e Kp J S H W P1 PO s n l E) as [Hl Hs]. split; [exact Hl|].
+  intros i d Hi. apply repair_ok_iff. split; [lia | exact (Hs i d Hi)].
+Qed.
+
+Lemma c18_singles_make_window m e Kp s n l d :
+  extended_source_block_symbols (lenN (sbe_syms e)) = Ok Kp ->
+  lenN (sbe_syms e) + s + n <= 16777216 -> length l = N.to_nat n ->
+  (forall i, i < n -> sbe_repair_packets m e (s + i) 1 = Ok [nth (N.to_nat i) l d]) ->
+  sbe_repair_packets m e s n = Ok l.
+Proof.
+  intros X Hb Hl Hs. destruct (params_of_ext _ _ X) as [J [S [H [W [P1 PO]]]]].
+  apply repair_ok_iff. split; [exact Hb|].
+  apply (singles_make_window m e Kp J S H W P1 PO s n l d);
+    [right; exact (inside_no_wrap _ _ _ _ _ _ _ s n PO Hb) | exact Hl|].
+  intros i Hi. exact (proj2 (proj1 (repair_ok_iff m e (s + i) 1 _) (Hs i Hi))).
+Qed.
+
+Lemma c18_overlap_agree m e s1 n1 l1 s2 n2 l2 i1 i2 d :
+  sbe_repair_packets m e s1 n1 = Ok l1 -> sbe_repair_packets m e s2 n2 = Ok l2 ->
+  i1 < n1 -> i2 < n2 -> s1 + i1 = s2 + i2 ->
+  nth (N.to_nat i1) l1 d = nth (N.to_nat i2) l2 d.
+Proof.
+  intros E1 E2. apply repair_ok_iff in E1, E2. destruct E1 as [_ E1]. destruct E2 as [_ E2].
+  exact (windows_agree m e s1 n1 l1 s2 n2 l2 i1 i2 d E1 E2).
+Qed.
+
+Lemma c18_ids m e s n l : sbe_repair_packets m e s n = Ok l ->
+  lenN (sbe_syms e) + s + n <= 16777216 /\
+  map fst l = map (fun i => (sbe_id e, lenN (sbe_syms e) + s + i)) (rangeN (N.to_nat n)) /\
+  NoDup (map fst l) /\
+  Forall (fun p => fst (fst p) = sbe_id e /\ lenN (sbe_syms e) <= snd (fst p) < 16777216) l /\
+  (forall src p q, sbe_source_packets e = Ok src -> In p l -> In q src -> fst p <> fst q).
+Proof.
+  intros E. apply repair_ok_iff in E. destruct E as [Hb E]. split; [exact Hb|].
+  destruct (window_params m e s n l E) as [Kp [J [S [H [W [P1 PO]]]]]].
+  pose proof (po_ext _ _ _ _ _ _ _ PO) as X.
+  destruct (inside_no_wrap _ _ _ _ _ _ _ s n PO Hb) as [_ Hw].
+  destruct (window_ids m e Kp J S H W P1 PO s n l Hw E) as [Hids _].
+  destruct (window_ids_distinct m e Kp s n l X Hw E) as [ND FA].
+  split; [exact Hids|]. split; [exact ND|]. split; [exact FA|].
+  intros src p q Es Hp Hq Eq. unfold sbe_source_packets in Es.
+  destruct (source_packets_inv _ _ _ Es) as [S1 _].
+  rewrite Forall_forall in FA. destruct (FA p Hp) as [_ [Hge _]].
+  assert (Hin : In (fst q) (map fst src)) by (apply in_map; exact Hq).
+  rewrite S1 in Hin. apply in_map_iff in Hin. destruct Hin as [i [Ei Hi]].
+  apply rangeN_in in Hi. rewrite Eq, <- Ei in Hge. cbn [snd] in Hge. unfold lenN in Hge. lia.
+Qed.
+
+Lemma c18_all_ids_producible m e L s n :
+  lenN (sbe_syms e) <= 56403 -> num_intermediate_symbols (lenN (sbe_syms e)) = Ok L ->
+  lenN (sbe_C e) = L -> lenN (sbe_syms e) + s + n <= 16777216 ->
+  exists l, sbe_repair_packets m e s n = Ok l.
+Proof.
+  intros HK HL HC Hb. destruct (params_exist _ HK) as [K' [J [S [H [W [P1 PO]]]]]].
+  rewrite (po_L _ _ _ _ _ _ _ PO) in HL. injection HL as <-.
+  destruct (window_producible m e K' J S H W P1 PO HC s n Hb) as [l El].
+  exists l. apply repair_ok_iff. auto.
+Qed.
+
+Lemma c18_symbol_depends_only_on m e1 e2 s1 n1 l1 s2 n2 l2 i1 i2 d :
+  lenN (sbe_syms e1) = lenN (sbe_syms e2) -> sbe_C e1 = sbe_C e2 ->
+  sbe_repair_packets m e1 s1 n1 = Ok l1 -> sbe_repair_packets m e2 s2 n2 = Ok l2 ->
+  i1 < n1 -> i2 < n2 ->
+  snd (fst (nth (N.to_nat i1) l1 d)) = snd (fst (nth (N.to_nat i2) l2 d)) ->
+  snd (nth (N.to_nat i1) l1 d) = snd (nth (N.to_nat i2) l2 d).
+Proof.
+  intros EK EC E1 E2 H1 H2 Eesi. apply repair_ok_iff in E1, E2.
+  destruct E1 as [_ E1]. destruct E2 as [_ E2].
+  destruct (window_params m e1 s1 n1 l1 E1) as [Kp [J [S [H [W [P1 PO]]]]]].
+  assert (PO2 : params_of (lenN (sbe_syms e2)) Kp J S H W P1) by (rewrite <- EK; exact PO).
+  destruct (window_nth m e1 Kp J S H W P1 PO s1 n1 l1 E1) as [_ N1].
+  destruct (window_nth m e2 Kp J S H W P1 PO2 s2 n2 l2 E2) as [_ N2].
+  exact (payload_depends_only m e1 e2 Kp J S H W P1 s1 i1 s2 i2 _ _ EK EC PO (N1 i1 d H1) (N2 i2 d H2) Eesi).
+Qed.
+
 (* ---- the per-object packet list ---- *)
 
 Definition block_packets_ok (m : mode) (n : N) (e : sb_encoder) (part : list packet) : Prop :=
@@ -432,108 +571,10 @@ Lemma encoded_packets_order m encs n l : get_encoded_packets m encs n = Ok l ->
 Proof.
   unfold get_encoded_packets. intros E. oinv E. injection E as <-. exists a. split; [|reflexivity].
   apply omapM_Forall2 in E0. eapply Forall2_impl'; [|exact E0]. cbv beta. clear. intros e part E.
-  oinv E. oinv E. injection E as <-. exists a, a0.
-  assert (X : exists Kp, extended_source_block_symbols (lenN (sbe_syms e)) = Ok Kp).
-  { pose proof E1 as E2. unfold sbe_repair_packets in E2. oinv E2. eauto. }
-  destruct X as [Kp X]. destruct (params_of_ext _ _ X) as [J [S [H [W [P1 PO]]]]].
-  pose proof (po_facts _ _ _ _ _ _ _ PO) as F. destruct F.
-  pose proof (po_le _ _ _ _ _ _ _ PO) as HKK.
-  change MAX_SOURCE_SYMBOLS_PER_BLOCK with 56403 in ro_Kmax.
-  assert (P32 : 16777216 + 56403 < 2 ^ 32) by reflexivity.
-  pose proof (window_no_wrap m e Kp J S H W P1 PO 0 n a0 ltac:(lia) E1) as Hn.
-  destruct (window_ids m e Kp J S H W P1 PO 0 n a0 ltac:(lia) E1) as [Hids _].
+  oinvas E as src E0. oinvas E as rep E1. injection E as <-. exists src, rep.
+  destruct (c18_ids m e 0 n rep E1) as [Hb [Hids _]].
   unfold sbe_source_packets in E0. destruct (source_packets_inv _ _ _ E0) as [S1 [S2 S3]].
   split; [exact E0|]. split; [exact E1|]. split; [reflexivity|].
   split; [unfold lenN; rewrite Nat2N.id; exact S1|]. split; [exact S2|].
   split; [|lia]. rewrite Hids. apply map_ext. intros i. f_equal. lia.
-Qed.
-
-(* ---- statements without the table row as a parameter (for Props/C18.v) ---- *)
-
-Lemma window_params m e s n l : sbe_repair_packets m e s n = Ok l ->
-  exists Kp J S H W P1, params_of (lenN (sbe_syms e)) Kp J S H W P1.
-Proof.
-  intros E. unfold sbe_repair_packets in E. oinvas E as Kp X.
-  destruct (params_of_ext _ _ X) as [J [S [H [W [P1 PO]]]]]. eauto 10.
-Qed.
-
-Lemma c18_window_is_singles m e s n l : sbe_repair_packets m e s n = Ok l ->
-  length l = N.to_nat n /\
-  forall i d, i < n -> sbe_repair_packets m e (s + i) 1 = Ok [nth (N.to_nat i) l d].
-Proof.
-  intros E. destruct (window_params m e s n l E) as [Kp [J [S [H [W [P1 PO]]]]]].
-  exact (window_is_singles m e Kp J S H W P1 PO s n l E).
-Qed.
-
-Lemma c18_singles_make_window m e Kp s n l d :
-  extended_source_block_symbols (lenN (sbe_syms e)) = Ok Kp ->
-  (m = Release \/ (Kp + s < 2 ^ 32 /\ Kp + s + n <= 2 ^ 32)) -> length l = N.to_nat n ->
-  (forall i, i < n -> sbe_repair_packets m e (s + i) 1 = Ok [nth (N.to_nat i) l d]) ->
-  sbe_repair_packets m e s n = Ok l.
-Proof.
-  intros X. destruct (params_of_ext _ _ X) as [J [S [H [W [P1 PO]]]]].
-  exact (singles_make_window m e Kp J S H W P1 PO s n l d).
-Qed.
-
-(* identifiers: in every mode the ESI is K + s + i reduced mod 2^32 and below 2^24 *)
-Lemma c18_ids_mod m e s n l : sbe_repair_packets m e s n = Ok l ->
-  forall i d, i < n ->
-    fst (nth (N.to_nat i) l d) = (sbe_id e, (lenN (sbe_syms e) + s + i) mod 2 ^ 32) /\
-    (lenN (sbe_syms e) + s + i) mod 2 ^ 32 < 16777216.
-Proof.
-  intros E i d Hi. destruct (window_params m e s n l E) as [Kp [J [S [H [W [P1 PO]]]]]].
-  destruct (window_nth m e Kp J S H W P1 PO s n l E) as [_ Hn].
-  destruct (rp_body_inv m e Kp J W P1 s i _ (Hn i d Hi)) as [t [I1 [I2 _]]]. auto.
-Qed.
-
-Lemma c18_ids m e Kp s n l :
-  extended_source_block_symbols (lenN (sbe_syms e)) = Ok Kp -> Kp + s + n <= 2 ^ 32 ->
-  sbe_repair_packets m e s n = Ok l ->
-  map fst l = map (fun i => (sbe_id e, lenN (sbe_syms e) + s + i)) (rangeN (N.to_nat n)) /\
-  NoDup (map fst l) /\
-  Forall (fun p => fst (fst p) = sbe_id e /\ lenN (sbe_syms e) <= snd (fst p) < 16777216) l /\
-  (forall src p q, sbe_source_packets e = Ok src -> In p l -> In q src -> fst p <> fst q).
-Proof.
-  intros X Hb E. destruct (params_of_ext _ _ X) as [J [S [H [W [P1 PO]]]]].
-  destruct (window_ids m e Kp J S H W P1 PO s n l Hb E) as [Hids _].
-  destruct (window_ids_distinct m e Kp s n l X Hb E) as [ND FA].
-  split; [exact Hids|]. split; [exact ND|]. split; [exact FA|].
-  intros src p q Es Hp Hq Eq. unfold sbe_source_packets in Es.
-  destruct (source_packets_inv _ _ _ Es) as [S1 _].
-  rewrite Forall_forall in FA. destruct (FA p Hp) as [_ [Hge _]].
-  assert (Hin : In (fst q) (map fst src)) by (apply in_map; exact Hq).
-  rewrite S1 in Hin. apply in_map_iff in Hin. destruct Hin as [i [Ei Hi]].
-  apply rangeN_in in Hi. rewrite Eq, <- Ei in Hge. cbn [snd] in Hge. unfold lenN in Hge. lia.
-Qed.
-
-Lemma c18_window_no_wrap m e s n l : lenN (sbe_syms e) + s <= 16777216 ->
-  sbe_repair_packets m e s n = Ok l -> lenN (sbe_syms e) + s + n <= 16777216.
-Proof.
-  intros Hs E. destruct (window_params m e s n l E) as [Kp [J [S [H [W [P1 PO]]]]]].
-  exact (window_no_wrap m e Kp J S H W P1 PO s n l Hs E).
-Qed.
-
-Lemma c18_all_ids_producible m e L s n :
-  lenN (sbe_syms e) <= 56403 -> num_intermediate_symbols (lenN (sbe_syms e)) = Ok L ->
-  lenN (sbe_C e) = L -> lenN (sbe_syms e) + s + n <= 16777216 ->
-  exists l, sbe_repair_packets m e s n = Ok l.
-Proof.
-  intros HK HL HC Hb. destruct (params_exist _ HK) as [K' [J [S [H [W [P1 PO]]]]]].
-  rewrite (po_L _ _ _ _ _ _ _ PO) in HL. injection HL as <-.
-  exact (window_producible m e K' J S H W P1 PO HC s n Hb).
-Qed.
-
-Lemma c18_symbol_depends_only_on m e1 e2 s1 n1 l1 s2 n2 l2 i1 i2 d :
-  lenN (sbe_syms e1) = lenN (sbe_syms e2) -> sbe_C e1 = sbe_C e2 ->
-  sbe_repair_packets m e1 s1 n1 = Ok l1 -> sbe_repair_packets m e2 s2 n2 = Ok l2 ->
-  i1 < n1 -> i2 < n2 ->
-  snd (fst (nth (N.to_nat i1) l1 d)) = snd (fst (nth (N.to_nat i2) l2 d)) ->
-  snd (nth (N.to_nat i1) l1 d) = snd (nth (N.to_nat i2) l2 d).
-Proof.
-  intros EK EC E1 E2 H1 H2 Eesi.
-  destruct (window_params m e1 s1 n1 l1 E1) as [Kp [J [S [H [W [P1 PO]]]]]].
-  assert (PO2 : params_of (lenN (sbe_syms e2)) Kp J S H W P1) by (rewrite <- EK; exact PO).
-  destruct (window_nth m e1 Kp J S H W P1 PO s1 n1 l1 E1) as [_ N1].
-  destruct (window_nth m e2 Kp J S H W P1 PO2 s2 n2 l2 E2) as [_ N2].
-  exact (payload_depends_only m e1 e2 Kp J S H W P1 s1 i1 s2 i2 _ _ EK EC PO (N1 i1 d H1) (N2 i2 d H2) Eesi).
 Qed.
